@@ -41,7 +41,8 @@ RULES = {
               "double border triangles counts both endpoints of every edge",
     "C13-H1": "the editing block must not mutate containers shared with the input mesh nor share only some of them, and a wrapper returns the "
               "re-instantiated mesh, not the stale input",
-    "C13-H2": "re-preparing the edited data on exit adds the sides of the new faces as edges and flags no generated edge as hard (shared with C02-H1)",
+    "C13-H2": "re-preparing the edited data on exit adds the sides of the new faces as edges and flags no generated edge as hard (shared with C02-H1); "
+              "a refinement that rebuilds its data flags no generated edge as hard: only halves of edges that were hard in the input may be hard",
     "C13-S1": "a method that looks up the midpoint of every side of every face must find it also when earlier operations of the block (quad "
               "diagonals, a previous refinement) added faces without their edges",
 }
@@ -81,19 +82,31 @@ def anchor(ctx, cls, meth):
 def explore(ctx, rule, site, label, setup, both_orders=True):
     """outcomes of `setup(dec, reverse)` under both relative orders of the vertex symbols; None (after `undecided`) when the code
     leaves the modelled subset"""
-    outs = []
-    for rev in ((False, True) if both_orders else (False,)):
-        try:
+    def attempt():
+        outs = []
+        for rev in ((False, True) if both_orders else (False,)):
             outs += E.explore(lambda dec, _r=rev: setup(dec, _r))
-        except Unknown as u:
-            ctx.undecided(rule, site, f"{label}: cannot be evaluated on the template mesh", str(u)[:300])
-            return None
-        except M.AnalysisMissing as u:
-            ctx.undecided(rule, site, f"{label}: method {u} not found", "")
-            return None
-        except RecursionError:
-            ctx.undecided(rule, site, f"{label}: cannot be evaluated on the template mesh", "recursion limit")
-            return None
+        return outs
+    try:
+        outs = attempt()
+        if any(o.unknown is not None and "symbolic" in str(o.unknown) for o in outs) and not _MODE["concrete"]:
+            # the code walks over the whole vertex range (e.g. it prepares the data): same template with small integer vertex indices
+            _MODE["concrete"] = True
+            try:
+                outs2 = attempt()
+            finally:
+                _MODE["concrete"] = False
+            if sum(o.unknown is not None for o in outs2) < sum(o.unknown is not None for o in outs):
+                outs = outs2
+    except Unknown as u:
+        ctx.undecided(rule, site, f"{label}: cannot be evaluated on the template mesh", str(u)[:300])
+        return None
+    except M.AnalysisMissing as u:
+        ctx.undecided(rule, site, f"{label}: method {u} not found", "")
+        return None
+    except RecursionError:
+        ctx.undecided(rule, site, f"{label}: cannot be evaluated on the template mesh", "recursion limit")
+        return None
     return outs
 
 
@@ -149,7 +162,7 @@ def input_mesh(w, cls, Ed, F, C=(), corners=True, n_vertices=None):
     mesh.fields["vertices"] = w.container("vertices", symbolic_vertices=True) if n_vertices is None else \
         w.container("vertices", [w.pos(i) for i in range(n_vertices)])
     mesh.fields["edges"] = w.container("edges", list(Ed))
-    w.attribute(mesh.fields["edges"], "hard_edges", {})
+    w.attribute(mesh.fields["edges"], "hard_edges", {}, typ="bool")
     mesh.fields["faces"] = w.container("faces", list(F))
     el = [v for f in F for v in f] if corners else []
     ad = [i for i, f in enumerate(F) for _ in f] if corners else []
@@ -169,17 +182,25 @@ def sorted_pair(w, a, b):
     return (a, b) if w.ev.nums.sign(w.ev.arith(ast.Sub(), b, a)) == 1 else (b, a)
 
 
+_MODE = {"concrete": False}
+
+
 def world(ctx, dec, rev, build, hooks=None):
     """(Ev, thunk) for hb_eval.explore: the template is built and the operation evaluated inside the thunk"""
     w = M.World(ctx.repo, dec, hooks={**M.attr_hooks(), **(hooks or {})}, reverse=rev)
+    w.concrete = _MODE["concrete"]
     return w.ev, (lambda: build(w))
 
 
 def open_editor(w, faces, vertex_names, cls="SurfaceSubdivision", edges="complete", cells=(), enter=True):
     """an editor of class `cls` opened (constructor + __enter__, both evaluated) on an already built template mesh"""
     names = {}
-    for n in vertex_names:
-        names[n] = w.v(n)
+    concrete = getattr(w, "concrete", False)
+    order = list(vertex_names)[::-1] if (concrete and w.reverse) else list(vertex_names)
+    for i, n in enumerate(order):
+        # symbolic vertex indices by default; small integers when the code loops over the whole vertex range
+        names[n] = i if concrete else w.v(n)
+    w.n_old = len(order) if concrete else None
     F = [tuple(names[c] for c in f) for f in faces]
     C = [tuple(names[c] for c in f) for f in cells]
     Ed = []
@@ -192,7 +213,7 @@ def open_editor(w, faces, vertex_names, cls="SurfaceSubdivision", edges="complet
                     Ed.append(sorted_pair(w, a, b))
     else:
         Ed = [sorted_pair(w, names[e[0]], names[e[1]]) for e in edges]
-    mesh = input_mesh(w, cls, Ed, F, C)
+    mesh = input_mesh(w, cls, Ed, F, C, n_vertices=w.n_old)
     w.names, w.F, w.Ed, w.C, w.input = names, F, Ed, C, mesh
     w.editor = w.ev.call(w.cls(SUBM, cls), [mesh], {})
     if not isinstance(w.editor, Obj):
@@ -340,7 +361,7 @@ def surface_ops(ctx):
             F = [tuple(f) for f in w.data(raw.fields["faces"])]
             old = w.F[0]
             if n == 3:
-                if F != [tuple(x) for x in w.F] or w.data(raw.fields["vertices"]).items:
+                if F != [tuple(x) for x in w.F] or M.vertex_table(w, raw).items:
                     return [M.Problem("arity", "triangulate_face modifies a face that is already a triangle", f"faces become {[M.fmt_face(f) for f in F]}")]
                 return []
             rest = [f for f in F if f != tuple(w.F[1])]
@@ -349,7 +370,7 @@ def surface_ops(ctx):
                                   else f"triangulate_face turns a face with {n} sides into faces that are not all triangles",
                                   f"result {[M.fmt_face(f) for f in rest]}: every non-triangular face must be triangulated")]
             ps = M.check_surface(w, w.F, raw, label, centres_of=[old] if n > 4 else [], midpoints=False, edges_old={frozenset(e) for e in w.Ed})
-            if n == 4 and w.data(raw.fields["vertices"]).items:
+            if n == 4 and M.vertex_table(w, raw).items:
                 ps.append(M.Problem("arity", "triangulate_face adds a vertex to split a quad instead of cutting it along a diagonal", ""))
             return ps
         allp += _collect(label, outs, check)
@@ -375,7 +396,7 @@ def surface_ops(ctx):
             raw = edited(w)
             ps = M.check_surface(w, w.F, raw, label, centres_of=[w.F[0]], midpoints=False, expect_arity=3, expect_count=n + 1,
                                  edges_old={frozenset(e) for e in w.Ed})
-            V = w.data(raw.fields["vertices"])
+            V = M.vertex_table(w, raw)
             if not ps and len(V.items) != 1:
                 ps.append(M.Problem("index", f"split_face_as_fan appends {len(V.items)} vertices instead of one", ""))
             return ps
@@ -442,9 +463,10 @@ def surface_refinements(ctx):
                 vin, fin_ = w.data(w.input.fields["vertices"]), [tuple(f) for f in w.data(w.input.fields["faces"])]
             except Unknown:
                 return ps
-            if len(vin.items) or fin_ != [tuple(f) for f in w.F]:
+            extra = len(vin) - (w.n_old or 0)
+            if extra or fin_ != [tuple(f) for f in w.F]:
                 ps.append(M.Problem("C13-H1", f"{label}: the refinement writes into the containers of the mesh that was passed in",
-                                    f"the input mesh ends with {len(vin.items)} extra vertex(es) and faces {[M.fmt_face(f) for f in fin_[:3]]}...: it is neither "
+                                    f"the input mesh ends with {extra} extra vertex(es) and faces {[M.fmt_face(f) for f in fin_[:3]]}...: it is neither "
                                     "unchanged nor equal to the result (a container of the new data aliases one of the input)"))
             return ps
         allp += _collect(label, outs, check)
@@ -599,17 +621,30 @@ def editor_protocol(ctx):
 
 
 # ------------------------------------------------------------------------------------------------ a whole editing block, prepared for real on exit
+REBUILDING = ("loop_subdivision", "subdivide_triangles_3quads", "subdivide_triangles_6")
+
+
 def block_end_to_end(ctx):
     """enter, one in-place operation, exit - with RawMeshData.prepare() evaluated for real on a small mesh with concrete indices:
     the data handed to the new mesh object must describe the refined mesh (edges, corner records), with no generated edge flagged hard"""
     repo = ctx.repo
-    cases = [("SurfaceSubdivision", "triangulate", [], [(0, 1, 2, 3), (1, 0, 4)], [], 7),       # 7 vertices: two of them unused
-             ("VolumeSubdivision", "split_cell_as_fan", [0], [(1, 3, 2), (0, 2, 3), (3, 1, 0), (0, 1, 2)], [(0, 1, 2, 3)], 4)]
-    for cls, meth, args, F, C, nv in cases:
+    SURF = [(0, 1, 2, 3), (1, 0, 4)]
+    TETF = [(1, 3, 2), (0, 2, 3), (3, 1, 0), (0, 1, 2)]
+    cases = [("SurfaceSubdivision", [("triangulate", [])], SURF, [], 7),       # 7 vertices: two of them unused
+             # a refinement that builds new data followed by an in-place operation of the same block: the data handed over on exit
+             # must still be prepared (nothing that an earlier operation left behind - a flag, a cache - may make the exit skip it)
+             ("SurfaceSubdivision", [("loop_subdivision", []), ("split_face_as_fan", [0])], SURF, [], 5),
+             ("SurfaceSubdivision", [("subdivide_triangles_3quads", []), ("triangulate_face", [0])], SURF, [], 5),
+             ("SurfaceSubdivision", [("split_face_as_fan", [0]), ("loop_subdivision", [])], SURF, [], 5),
+             ("VolumeSubdivision", [("split_cell_as_fan", [0])], TETF, [(0, 1, 2, 3)], 4)]
+    ops_of = {}
+    for cls, ops, F, C, nv in cases:
         fn, site = anchor(ctx, cls, "__exit__")
-        label = f"{cls}: with-block running {meth}()"
+        meth, args = ops[0]
+        label = f"{cls}: with-block running " + ", ".join(m + "()" for m, _ in ops)
+        ops_of[label] = ops
 
-        def setup(dec, rev, cls=cls, meth=meth, args=args, F=F, C=C, nv=nv):
+        def setup(dec, rev, cls=cls, meth=meth, args=args, F=F, C=C, nv=nv, ops=ops):
             def build(w):
                 # an unrelated block first (on a pentagon / another tetrahedron): nothing of it may leak into the next one
                 F0 = [(0, 1, 2, 3, 4)] if cls == "SurfaceSubdivision" else [tuple(c[i] for i in t) for c in [(0, 1, 2, 3)] for t in TET_FACES]
@@ -621,11 +656,19 @@ def block_end_to_end(ctx):
                 w.ev.call(w.method(ed0, "__exit__"), [None, None, None], {})
                 Ed = sorted({tuple(sorted(e)) for f in F for e in M.directed_edges(f)})
                 mesh = input_mesh(w, cls, Ed, F, C, n_vertices=nv)
+                # per-corner data computed on the mesh before the edit (user attribute, cached cell adjacency ...)
+                for cname in ("face_corners", "cell_corners", "cell_faces"):
+                    if cname in mesh.fields:
+                        w.attribute(mesh.fields[cname], "adjacent_cell" if cname == "cell_faces" else "corner_data", {0: Opaque(("before-the-edit", cname))})
                 ed = w.ev.call(w.cls(SUBM, cls), [mesh], {})
                 w.ev.call(w.method(ed, "__enter__"), [], {})
-                w.ev.call(w.method(ed, meth), list(args), {})
+                if any(m_ in REBUILDING for m_, _ in ops):
+                    w.attributes(mesh.fields["edges"])["hard_edges"].data[0] = True      # the first edge of the input is a hard edge
+                for m_, a_ in ops:
+                    w.ev.call(w.method(ed, m_), list(a_), {})
                 raw = ed.fields.get("mesh")
                 w.ev.call(w.method(ed, "__exit__"), [None, None, None], {})
+                w.hard_input, w.nv = Ed[0], nv
                 return w, raw, ed, len(Ed)
             return world(ctx, dec, rev, build, {("method", "_Connectivity", "_compute_cell_adj"): lambda ev, o, a, k: None})
         outs = explore(ctx, "C13-E1", site, label, setup, both_orders=False)
@@ -675,12 +718,53 @@ def block_end_to_end(ctx):
                 if not okf:
                     probs.append(M.Problem("C13-E1", f"{cls}: after the editing block the cell-face records do not describe the cells of the result",
                                            f"{len(ge)} record(s) for {len(cells)} tetrahedra: stale or missing records (cleared on enter, regenerated on exit)"))
+            for cname in ("face_corners", "cell_corners", "cell_faces"):
+                c = raw.fields.get(cname)
+                if isinstance(c, Obj):
+                    stale = [n for n, a in w.attributes(c).items() if isinstance(a, E.AttrModel)
+                             and any(isinstance(v, Opaque) and isinstance(v.term, tuple) and v.term[:1] == ("before-the-edit",) for v in a.data.values())]
+                    if stale:
+                        probs.append(M.Problem("C13-E1", f"{cls}: per-corner data computed before the edit survives on the regenerated `{cname}` table",
+                                               f"attribute `{stale[0]}` of {cname} still holds the values it had on the input mesh although the records were "
+                                               "renumbered: a cache kept there (e.g. the cell adjacency `adjacent_cell` of a volume mesh) makes the "
+                                               "connectivity of the result describe the mesh before the split; the corner tables must be cleared, not only refilled"))
             he = w.attributes(raw.fields["edges"]).get("hard_edges")
-            if isinstance(he, E.AttrModel) and any(v is True or v == 1 for v in he.data.values()):
-                probs.append(M.Problem("C13-H2", "edges generated while an already built mesh is edited are flagged as hard edges",
-                                       f"flagged edge indices after the block: {sorted(he.data)}; no edge was declared hard by the caller"))
+            rebuilding = [m_ for m_, _ in ops_of[label] if m_ in REBUILDING]
+            if rebuilding and ops_of[label][-1][0] not in REBUILDING:
+                flagged_skip = True       # edges appended by a later in-place operation are judged in the in-place blocks
+            else:
+                flagged_skip = False
+            flagged = sorted(k for k, v in he.data.items() if v is True or v == 1) if isinstance(he, E.AttrModel) else []
+            if not rebuilding:
+                if flagged:
+                    probs.append(M.Problem("C13-H2", "edges generated while an already built mesh is edited are flagged as hard edges",
+                                           f"flagged edge indices after the block: {flagged}; no edge was declared hard by the caller"))
+            elif flagged and not flagged_skip:
+                # a refinement that rebuilds its data: only the pieces of the edge that was hard in the input may be hard
+                a, b = w.hard_input
+                T = M.VTable(w, raw, w.nv)
+                allowed = {w.pos(a).name, w.pos(b).name}
+
+                def on_hard_edge(i):
+                    p = T.position(i)
+                    return p is not None and set(p) <= allowed
+                bad = [edges[k] for k in flagged if not (isinstance(k, int) and 0 <= k < len(edges) and all(on_hard_edge(x) for x in edges[k]))]
+                if bad:
+                    m_ = rebuilding[-1]
+                    p = M.Problem("C13-H2", (f"{m_}: the rebuilt edge container is handed to prepare() without a `hard_edges` attribute, so every edge is "
+                                             "taken for declared and flagged hard") if len(flagged) == len(edges) else
+                                  f"{m_}: an edge generated by the refinement is flagged as a hard edge",
+                                  f"one edge of the input was hard; after the block {len(flagged)} of {len(edges)} edges are flagged, e.g. {M.fmt_face(bad[0])}: a refinement "
+                                  "that rebuilds its data flags no generated edge as hard; only halves of edges that were hard in the input may be hard")
+                    p.site_method = m_
+                    probs.append(p)
         seen = set()
         probs = [p for p in probs if not ((p.kind, p.construct) in seen or seen.add((p.kind, p.construct)))]
+        for p in [p for p in probs if getattr(p, "site_method", None)]:
+            # reported at the refinement itself
+            ctx.fail("C13-H2", anchor(ctx, cls, p.site_method)[1], p.construct, p.what)
+            probs.remove(p)
+            outs = [o for o in outs if o.unknown is None]
         report(ctx, site, probs, ["C13-E1", "C13-H2"], f"{cls}: the data handed over on exit describes the refined mesh", outs, label)
 
 
@@ -828,7 +912,7 @@ def volume_ops(ctx):
 
         def check(w, which=which, label=label):
             raw = edited(w)
-            V = w.data(raw.fields["vertices"])
+            V = M.vertex_table(w, raw)
             cells = [tuple(c) for c in w.data(raw.fields["cells"])]
             old = w.C[0]
             if which == 1:
@@ -863,7 +947,7 @@ def volume_ops(ctx):
 
         def check(w, which=which, label=label):
             raw = edited(w)
-            V = w.data(raw.fields["vertices"])
+            V = M.vertex_table(w, raw)
             cells = [tuple(c) for c in w.data(raw.fields["cells"])]
             faces = [tuple(f) for f in w.data(raw.fields["faces"])]
             if which == 1:
